@@ -240,3 +240,104 @@ def _gen_matching(rng, tier):
 
 
 NATIVE = {"_compute_arguments_dict_matching_score": _gen_matching}
+
+
+# ---------------------------------------------------------------------------------------------
+# _compute_event_comparison_score: name rule, instance rule, priority scaling  (BOUNDED: native contract check only;
+# the function deep-copies the event and relies on Event.__getattr__, outside the prover's subset so far)
+# ---------------------------------------------------------------------------------------------
+def _expected_sign(state, event, ref_event, InternalEvents, ActionEvent):
+    """'pos' / 'nonpos' / None (statement silent) — written from the property statement"""
+    internal = event.name in InternalEvents.ALL and ref_event.name in InternalEvents.ALL
+    if ref_event.name != event.name:
+        return "nonpos"
+    if internal:
+        if event.name == InternalEvents.START_FLOW:
+            if set(ref_event.arguments) - {"flow_id"}:
+                return None  # hand-written `match StartFlow(flow_id=.., x=..)`: adjudicated separately (DESIGN.md C04)
+            if "flow_id" not in ref_event.arguments:
+                return "pos" if matches(event.arguments, ref_event.arguments) else "nonpos"
+            return "pos" if event.arguments.get("flow_id") == ref_event.arguments["flow_id"] else "nonpos"
+        if ref_event.flow is not None and "source_flow_instance_uid" in event.arguments and \
+                event.arguments["source_flow_instance_uid"] != ref_event.flow.uid:
+            return "nonpos"
+        return "pos" if matches(event.arguments, ref_event.arguments) else "nonpos"
+    args = dict(event.arguments)
+    if isinstance(event, ActionEvent) and isinstance(ref_event, ActionEvent):
+        if ref_event.action_uid is not None and ref_event.action_uid != event.action_uid:
+            return "nonpos"   # a statement that refers to a specific action instance matches only events of that instance
+        if event.action_uid is not None and event.action_uid in state.actions:
+            args["action_arguments"] = state.actions[event.action_uid].start_event_arguments
+    return "pos" if matches(args, ref_event.arguments) else "nonpos"
+
+
+def native_checks(rng, tier):
+    import re
+    import itertools
+    from nemoguardrails.colang.v2_x.runtime import statemachine as sm
+    from nemoguardrails.colang.v2_x.runtime.flows import Event, ActionEvent, InternalEvent, InternalEvents, Action, State, FlowState
+    fn = sm._compute_event_comparison_score
+    failing = []
+    n = 0
+    seen = set()
+
+    def run(state, ev, ref, what):
+        nonlocal n
+        exp = _expected_sign(state, ev, ref, InternalEvents, ActionEvent)
+        for prio in (None, 1.0, 0.5):
+            n += 1
+            seen.add((what, prio))
+            try:
+                got = fn(state, ev, ref, prio)
+                base = fn(state, ev, ref, None)
+            except Exception as ex:
+                got = "raised %s" % type(ex).__name__
+                base = None
+            bad = None
+            if isinstance(got, str):
+                bad = got
+            elif exp == "pos" and not got > 0:
+                bad = "score %r, expected a match" % got
+            elif exp == "nonpos" and got > 0:
+                bad = "score %r, expected no match" % got
+            elif prio and base is not None and base > 0 and abs(got - base * prio) > 1e-12:
+                bad = "priority %r does not scale the score: %r vs unscaled %r" % (prio, got, base)
+            if bad and len(failing) < 5:
+                failing.append(dict(kind="post", function="_compute_event_comparison_score", file=SM, property_id="C04",
+                                    clause="sign of the score follows the name / instance / partial-match rules; priority only scales",
+                                    inputs="%s priority=%r" % (what, prio), outcome=bad))
+
+    state = State(flow_states={}, flow_configs={}, rails_config=None)
+    act = Action("UtteranceBotAction", {"script": "hi"})
+    act2 = Action("UtteranceBotAction", {"script": "hi"})
+    state.actions = {act.uid: act}
+    argsets = [{}, {"script": "hi"}, {"script": "ho"}, {"script": "hi", "x": 1}, {"final_script": "hi"}]
+    names = ["UtteranceBotActionFinished", "UtteranceBotActionStarted", "Ping"]
+    uids = [None, act.uid, act2.uid, "unknown-uid"]
+    for (en, rn, ea, ra, eu, ru) in itertools.product(names, names[:2] + ["Ping"], argsets, argsets[:4] + [{"action_arguments": {"script": "hi"}}], uids, uids[:3]):
+        ev = ActionEvent(en, dict(ea), action_uid=eu)
+        ref = ActionEvent(rn, dict(ra), action_uid=ru)
+        run(state, ev, ref, "ActionEvent(%s,%r,uid=%s) vs ref ActionEvent(%s,%r,uid=%s)" % (en, ea, _u(eu, act, act2), rn, ra, _u(ru, act, act2)))
+    # plain events
+    for (en, rn, ea, ra) in itertools.product(["Ping", "Pong"], ["Ping", "Pong"], [{}, {"a": 1}, {"a": 2, "b": [1, 2]}], [{}, {"a": 1}, {"b": [2]}, {"a": re.compile("1")}]):
+        run(state, Event(en, dict(ea)), Event(rn, dict(ra)), "Event(%s,%r) vs ref Event(%s,%r)" % (en, ea, rn, ra))
+    # internal events
+    fs = FlowState(uid="(f)uid-1", flow_id="f", loop_id=None, hierarchy_position="0")
+    fs2 = FlowState(uid="(f)uid-2", flow_id="f", loop_id=None, hierarchy_position="1")
+    inames = [InternalEvents.FLOW_FINISHED, InternalEvents.FLOW_FAILED, InternalEvents.FLOW_STARTED, InternalEvents.START_FLOW]
+    iargs = [{"flow_id": "f"}, {"flow_id": "g"}, {"flow_id": "f", "flow_instance_uid": "(f)uid-1"}, {"flow_id": "f", "flow_instance_uid": "(f)uid-2"},
+             {"flow_id": "f", "flow_instance_uid": "(f)uid-1", "source_flow_instance_uid": "(f)uid-1", "x": 3},
+             {"flow_id": "f", "source_flow_instance_uid": "(f)uid-2"}, {}]
+    for (en, rn, ea, ra, rf) in itertools.product(inames, inames, iargs, iargs[:4] + [{}], [None, fs, fs2]):
+        ev = InternalEvent(en, dict(ea))
+        ref = InternalEvent(rn, dict(ra), flow=rf)
+        if en == InternalEvents.START_FLOW and "flow_id" in ra and "flow_id" not in ea:
+            continue  # the code indexes event.arguments["flow_id"]: StartFlow events always carry it
+        run(state, ev, ref, "InternalEvent(%s,%r) vs ref InternalEvent(%s,%r,flow=%s)" % (en, ea, rn, ra, rf.uid if rf else None))
+    yield dict(function="_compute_event_comparison_score", evaluations=n, distinct=len(seen), failures=len(failing), failing=failing,
+               bound="3 event names x 5 argument sets x 4 action uids (none / tracked / untracked / unknown) for action events, plain and "
+                     "internal events (4 names x 7 argument sets x 3 flow references), priorities {None, 1.0, 0.5}")
+
+
+def _u(uid, act, act2):
+    return {None: "None", act.uid: "A1(tracked)", act2.uid: "A2(untracked)"}.get(uid, "unknown")
